@@ -9,7 +9,11 @@ pub type K = u64;
 pub type V = u64;
 pub struct Cow { pub v: u64 }                        // std::borrow::Cow<'_, T>: only into_owned() is used
 impl Cow { pub fn into_owned(self) -> (r: u64) ensures r == self.v { self.v } }
-pub fn cloned(o: Option<&u64>) -> (r: Option<u64>) ensures r == (match o { Some(x) => Some(*x), None => None }) { match o { Some(x) => Some(*x), None => None } }
+pub trait ClonedV { fn cloned_v(self) -> (r: Option<u64>) ensures r == self.spec_cloned(); spec fn spec_cloned(&self) -> Option<u64>; }
+impl ClonedV for Option<&u64> {
+    open spec fn spec_cloned(&self) -> Option<u64> { match *self { Some(x) => Some(*x), None => None } }
+    fn cloned_v(self) -> (r: Option<u64>) { match self { Some(x) => Some(*x), None => None } }
+}
 // std::collections::HashMap<K, V, S>
 #[verifier::external_body]
 pub struct StdHashMap { _p: u8 }
@@ -51,7 +55,7 @@ def cache_unit(kf):
     u.kf = kf
     u.trusted(SHIMS, 'HashMap / lru::LruCache / Cow shims (K = V = u64)')
     sig = [ReSub(r'Self::Key', 'K', count='*'), ReSub(r'Self::Value', 'V', count='*'), ReSub(r"Cow<'_, K>", 'Cow', count='*'), ReSub(r"Cow<'_, V>", 'Cow', count='*')]
-    cl = [Sub('.cloned()', '', count='*', rule='R-inst'), Sub('self.0.get(key)', 'cloned(self.0.get(key))', count='*', rule='R-inst')]
+    cl = [Sub('.cloned()', '.cloned_v()', count='*', rule='R-inst')]
     H = 'impl<K, V, S> CacheStorage for HashMapCacheImpl<K, V, S>'
     L = 'impl<K, V> CacheStorage for LruCacheImpl<K, V>'
     N = 'impl<K, V> CacheStorage for NoCacheImpl<K, V>'
